@@ -279,9 +279,11 @@ func (idx *HNSWIndex) Add(vector VectorNode) error {
 		return nil
 	}
 
-	// Insert into graph
-	idx.insertNode(node)
+	// Register the node before wiring it into the graph: pruneConnections
+	// resolves neighbor IDs through idx.nodes and would otherwise always drop
+	// the new node from a neighbor list that is already full.
 	idx.nodes[id] = node
+	idx.insertNode(node)
 
 	idx.mu.Unlock()
 	return nil
